@@ -727,6 +727,7 @@ fn viol(class: impl Into<String>, detail: impl Into<String>, len: usize) -> Viol
 fn check_live<A: PmCont>(w: &World<A>, log: &AllocLog, base_lck: u64, out: &mut Vec<Viol>) {
     let vmas = parse_smaps();
     let mut expect_lck_pages = 0u64;
+    let mut allow_lck_pages = 0u64;
     for s in 0..2 {
         let (Some(h), Some(m)) = (&w.slots[s], &w.model[s]) else { continue };
         let (pm, lm) = h.kind();
@@ -765,6 +766,8 @@ fn check_live<A: PmCont>(w: &World<A>, log: &AllocLog, base_lck: u64, out: &mut 
         }
         if lm == Lm::Locked {
             expect_lck_pages += pages_of(m.addr, len).len() as u64;
+            // an implementation may lock the whole allocation (spare capacity) of a locked region
+            allow_lck_pages += pages_of(m.addr, size.unwrap_or(len).max(len)).len() as u64;
         }
         // guard pages
         match page_info(&vmas, m.addr - PAGE) {
@@ -783,7 +786,9 @@ fn check_live<A: PmCont>(w: &World<A>, log: &AllocLog, base_lck: u64, out: &mut 
         }
     }
     let lck = vm_lck_kb();
-    if lck != base_lck + expect_lck_pages * (PAGE as u64 / 1024) {
+    // the data pages of locked handles must be locked (checked per page above); the total may
+    // exceed that only by the spare-capacity pages of locked handles' own allocations
+    if lck < base_lck + expect_lck_pages * (PAGE as u64 / 1024) || lck > base_lck + allow_lck_pages * (PAGE as u64 / 1024) {
         out.push(Viol { class: "vmlck".into(), detail: format!("VmLck is {} kB, model expects {} kB ({} locked pages over baseline {})", lck, base_lck + expect_lck_pages * 4, expect_lck_pages, base_lck), len: usize::MAX });
     }
 }
